@@ -819,6 +819,9 @@ struct TypeRunner {
     }
     // writes
     std::size_t wcalls = 0;
+    std::string wrefs;
+    for (std::size_t i = 0; i < w.pushed.size(); i++) { if (i) wrefs += ','; wrefs += std::to_string(i); }
+    if (wrefs.empty()) wrefs = "-";
     {
       WTrace t;
       std::vector<std::uint8_t> buf(w.reported + kGuard);
@@ -842,6 +845,8 @@ struct TypeRunner {
       if (st || st.error() != e || t.calls_after_failure != 0 || t.writes_after_failed_prepare != 0)
         c.line('X', "C10 write-fault type=" + tid + " call=" + std::to_string(k) + " of=" + std::to_string(wcalls) + " injected=" + status_name(e) +
                         " returned=" + (st ? "ok" : status_name(st.error())) + " calls-after=" + std::to_string(t.calls_after_failure) + " val=" + dump_str(v, false));
+      c.line('M', "fault w " + tid + " " + std::to_string(k) + " " + status_name(e) + " " + dump_str(v, false) + " " + wrefs);
+      c.line('I', std::string("err ") + (st ? "none" : status_name(st.error())) + " clean");
     }
   }
 
